@@ -339,7 +339,7 @@ func c11Sets(r *run.Run) {
 	if !r.Quick() {
 		maxGlyphs = 3
 	}
-	r.Explore(explore.Config{Name: "C11.sets", Deadline: r.PartDeadline(0.7)},
+	r.Explore(explore.Config{Name: "C11.sets", Deadline: r.PartDeadline(0.95)},
 		"glyph sets of 1..2 (quick) / 1..3 glyphs from {empty, simple (0..2 contours, 1..3 points, coordinates at the 8/16-bit boundaries, long/short/repeat-packed flags, instructions, 0/1/3 padding bytes), composite (1..3 components, byte/word args, every transform size, no/empty/2-byte instructions)} assembled independently; Decode -> Encode -> Decode is the identity bit for bit, loca is well formed, simple-glyph points agree with an independent decoder",
 		func(c *explore.Ctx) {
 			n := 1 + c.Choose(maxGlyphs, "glyphs")
@@ -550,6 +550,80 @@ func checkLoca(enc *glyf.Encoded, n int) []string {
 	return probs
 }
 
+// point counts of simple glyphs at the 8/15/16-bit thresholds (endPtsOfContours is a uint16 array: the
+// largest legal glyph has 65536 points, last end point 0xFFFF)
+func c11PointCounts(r *run.Run) {
+	counts := []int{1, 2, 255, 256, 257, 32767, 32768, 32769, 65535, 65536}
+	r.Explore(explore.Config{Name: "C11.point-counts"},
+		"simple glyphs with 1, 2, 255..257, 32767..32769, 65535 and 65536 points (last end point 0xFFFF) x {one contour, two contours, split after the first point} x {long, short, repeat-packed flags}: glyf.Decode accepts the assembled glyph, SimpleGlyph.Decode returns exactly the assembled points, Encode/Decode is the identity",
+		func(c *explore.Ctx) {
+			n := counts[c.Choose(len(counts), "points")]
+			split := c.Choose(3, "contours")
+			style := c.Choose(3, "flag encoding")
+			pts := make([]refPoint, n)
+			for i := range pts {
+				pts[i] = refPoint{X: int16(i % 7 * 40), Y: int16(i % 3 * 300), On: i%5 != 1}
+			}
+			var contours [][]refPoint
+			switch {
+			case split == 0 || n < 2:
+				contours = [][]refPoint{pts}
+			case split == 1:
+				contours = [][]refPoint{pts[:n/2], pts[n/2:]}
+			default:
+				contours = [][]refPoint{pts[:1], pts[1:]}
+			}
+			desc := fmt.Sprintf("%d points in %d contours, flag style %d", n, len(contours), style)
+			c.Sample(func() any { return desc })
+			c.Nontrivial()
+			body := assembleSimple(contours, nil, style, 0)
+			bb := bboxOf(contours)
+			data := []byte{byte(len(contours) >> 8), byte(len(contours)), byte(uint16(bb.LLx) >> 8), byte(bb.LLx), byte(uint16(bb.LLy) >> 8), byte(bb.LLy), byte(uint16(bb.URx) >> 8), byte(bb.URx), byte(uint16(bb.URy) >> 8), byte(bb.URy)}
+			data = append(data, body...)
+			if len(data)%2 != 0 {
+				data = append(data, 0)
+			}
+			l := len(data)
+			loca := []byte{0, 0, 0, 0, byte(l >> 24), byte(l >> 16), byte(l >> 8), byte(l)}
+			gg, err := glyf.Decode(&glyf.Encoded{GlyfData: data, LocaData: loca, LocaFormat: 1})
+			if err != nil || len(gg) != 1 || gg[0] == nil {
+				c.Fail("C11.decode", "point counts", "well-formed glyph rejected: %v (%s)", err, desc)
+				return
+			}
+			c.Outcome(n, split, style)
+			sg, ok := gg[0].Data.(glyf.SimpleGlyph)
+			if !ok {
+				c.Fail("C11.decode", "kind", "simple glyph decoded as %T (%s)", gg[0].Data, desc)
+				return
+			}
+			var info *glyf.GlyphInfo
+			if p := guard(func() { info, err = sg.Decode() }); p != "" {
+				c.Fail("C11.points", "SimpleGlyph.Decode point counts", "SimpleGlyph.Decode panics: %s (%s)", p, desc)
+				return
+			}
+			if err != nil {
+				c.Fail("C11.points", "SimpleGlyph.Decode point counts", "SimpleGlyph.Decode fails on a well-formed glyph: %v (%s)", err, desc)
+				return
+			}
+			bad := len(info.Contours) != len(contours)
+			for k := 0; !bad && k < len(contours); k++ {
+				bad = len(info.Contours[k]) != len(contours[k])
+				for i := 0; !bad && i < len(contours[k]); i++ {
+					p, q := info.Contours[k][i], contours[k][i]
+					bad = int16(p.X) != q.X || int16(p.Y) != q.Y || p.OnCurve != q.On
+				}
+			}
+			if bad {
+				c.Fail("C11.points", "contours point counts", "SimpleGlyph.Decode returns other points than were assembled (%s)", desc)
+			}
+			enc := gg.Encode()
+			gg2, err := glyf.Decode(enc)
+			if err != nil || len(gg2) != 1 || !cmp.Equal(gg[0], gg2[0], cmpopts.EquateEmpty()) {
+				c.Fail("C11.roundtrip", "point counts", "Encode/Decode changes the glyph (err=%v) (%s)", err, desc)
+			}
+		})
+}
+
 func c11Scaled(r *run.Run) {
 	sizes := []int{0xFFFC, 0xFFFE, 0x10000, 0x10002, 0x1FFFC, 0x1FFFE, 0x20000, 0x20002}
 	r.Explore(explore.Config{Name: "C11.scaled"}, "scaled glyph sets: total glyf size just below/at/above 64 KiB and 128 KiB (short/long loca switch), and glyph counts 1, 2, 65535: Decode(Encode(gs)) == gs with a well-formed loca",
@@ -624,7 +698,8 @@ func init() {
 	Register("C11", func(r *run.Run) {
 		r.Rule = "bounded exhaustive enumeration of glyph sets assembled by an independent assembler; independent simple-glyph decoder"
 		r.Assume = []string{"coordinates from the 8/16-bit boundary set; at most 3 glyphs per enumerated set, plus scaled sets"}
-		c11Sets(r)
 		c11Scaled(r)
+		c11PointCounts(r)
+		c11Sets(r)
 	})
 }
